@@ -80,10 +80,15 @@ source_for(const std::string &profile, const std::string &prop, int tier)
                 ProfileCfg pe = profile_by_name("scrub_entry", prop, tier);
                 s.make = [pc, pe](uint64_t run_seed, uint64_t idx) { return (idx % 4 == 3) ? gen_plan_entry(pe, run_seed) : gen_plan(pc, run_seed); };
         }
+        if (profile == "f12")
+                s.make = [pc](uint64_t run_seed, uint64_t) { return gen_plan_f12(pc, run_seed); };
         if (profile == "scrub_entry")
                 s.make = [pc](uint64_t run_seed, uint64_t) { return gen_plan_entry(pc, run_seed); };
-        if (profile == "entry")
-                s.make = [pc](uint64_t run_seed, uint64_t) { return gen_plan_entry(pc, run_seed); };
+        if (profile == "entry") {
+                // C09; one run in twelve is fault kind F12: a synchronous burst while asynchronous jobs of the same family are parked
+                ProfileCfg pf = profile_by_name("f12", prop, tier);
+                s.make = [pc, pf](uint64_t run_seed, uint64_t idx) { return (idx % 12 == 11) ? gen_plan_f12(pf, run_seed) : gen_plan_entry(pc, run_seed); };
+        }
         if (profile == "keyprep")
                 s.make = [pc](uint64_t run_seed, uint64_t) { return gen_plan_keyprep(pc, run_seed); };
         if (profile == "sgl")
